@@ -44,7 +44,7 @@ def _cases(draw):
     gaps = []
     for _ in range(draw(st.sampled_from([0, 0, 1, 2]))):
         gaps.append({"agent": draw(st.sampled_from(list(TGT) + [SEN[0]])), "step": draw(st.integers(1, n))})
-    return {"start": iso(t0), "dt": draw(st.sampled_from([30, 60, 300])), "n": n, "extras": draw(st.integers(0, 5)), "gaps": gaps,
+    return {"start": iso(t0), "dt": draw(st.sampled_from([30, 60, 300, 225, 675])), "n": n, "extras": draw(st.integers(0, 5)), "gaps": gaps,
             "missing_agent": draw(st.sampled_from([None, None, None, TGT[1]])), "sensors_imported": draw(st.booleans()),
             "obs_imported": draw(st.booleans())}
 
